@@ -485,6 +485,15 @@ def r12_4(chk, repo, uc):
             kw = dict(a[3]) if len(a) > 3 and a[3] else {}
             fwd = "**" in kw and kw["**"].key() == kwn
             explicit_unit = "unit" in kw
+            # ... with the unit still in them: kwargs.pop("unit") / del kwargs["unit"] takes it out before they are handed on
+            popped = any(isinstance(n_, ast.Call) and isinstance(n_.func, ast.Attribute) and n_.func.attr == "pop" and isinstance(n_.func.value, ast.Name)
+                         and n_.func.value.id == kwn and n_.args and isinstance(n_.args[0], ast.Constant) and n_.args[0].value == "unit"
+                         for n_ in ast.walk(fn)) or \
+                any(isinstance(n_, ast.Delete) and any(isinstance(t_, ast.Subscript) and isinstance(t_.value, ast.Name) and t_.value.id == kwn
+                                                      and isinstance(t_.slice, ast.Constant) and t_.slice.value == "unit" for t_ in n_.targets)
+                    for n_ in ast.walk(fn))
+            if popped and not explicit_unit:
+                fwd = False
             chk.ob("R12.4", UC, f"UnitCell.{fn.name}", f"keyword arguments (unit=...) accepted by the constructor reach the constructor it delegates to",
                    fwd or explicit_unit, node=r.node, fingerprint=f"forward-kwargs:{fn.name}", expected=f"{callee}(..., **{kwn})", found=str(r.value)[:120])
     # hexagonal forces radians
